@@ -29,8 +29,33 @@ def main():
     ap.add_argument("--tier", default="quick")
     ap.add_argument("--suite", action="store_true")
     ap.add_argument("--seed", type=int, default=1)
+    ap.add_argument("--scratch", action="store_true", help="evaluate in a scratch worktree instead of /repo")
     a = ap.parse_args()
     patch = os.path.abspath(a.patch)
+    if a.scratch:
+        # evaluation in a scratch worktree: /repo is not touched (used while long runs build from /repo)
+        wt = "/tmp/ksim-scratch-%d" % os.getpid()
+        r = sh("git -C /repo worktree add -q %s HEAD && git -C %s apply --whitespace=nowarn %s" % (wt, wt, patch))
+        out = {"patch": patch, "scratch": wt, "results": {}}
+        try:
+            if r.returncode != 0:
+                print("cannot prepare the scratch worktree:\n" + r.stdout)
+                sys.exit(2)
+            for prop in a.props.split(","):
+                t0 = time.time()
+                env = dict(os.environ, VERIF_BUDGET=str(a.budget), VERIF_SEED=str(a.seed), VERIF_REPO=wt)
+                p = subprocess.run([sys.executable, os.path.join(VERIF, "ctl", "ksimctl.py"), "check", prop, "--tier", a.tier],
+                                   cwd=VERIF, env=env, stdout=subprocess.PIPE, stderr=subprocess.PIPE, text=True)
+                classes = re.findall(r"class=(\S+) cases=(\d+)", p.stdout)
+                details = [l.strip()[:300] for l in p.stdout.splitlines() if l.strip().startswith("class=")][:3]
+                out["results"][prop] = {"rc": p.returncode, "classes": classes[:6], "details": details,
+                                        "harness": [l[:300] for l in p.stdout.splitlines() if l.startswith("HARNESS-ERROR")][:3],
+                                        "summary": (p.stderr.strip().splitlines() or [""])[-1], "wall_s": round(time.time() - t0, 1)}
+        finally:
+            sh("git -C /repo worktree remove --force %s; rm -f %s/bin/*ksim_scratch*" % (wt, VERIF))
+        out["repo_restored"] = True
+        print(json.dumps(out, indent=1))
+        return
     st = sh("git -C /repo status --porcelain").stdout.strip()
     if st:
         print("refusing: /repo is not clean:\n" + st)
